@@ -8,8 +8,9 @@ abbrev Bytes := List UInt8
 
 namespace Bytes
 
-/-- ASCII literal → bytes (used for constants such as "bytes"). -/
-def ofString (s : String) : Bytes := s.toUTF8.toList
+/-- ASCII literal → bytes (used for constants such as "s3:GetObject"; reducible by `decide`).
+Only meaningful for ASCII strings. -/
+def ofString (s : String) : Bytes := s.toList.map fun c => c.toNat.toUInt8
 
 def hexDigit (n : Nat) : Char :=
   if n < 10 then Char.ofNat (48 + n) else Char.ofNat (87 + n)
